@@ -16,6 +16,7 @@
      AsCodedClassified   the tree as coded satisfies it exactly outside the three UNet / Model
                          defect classes, and fails in the predicted step inside them
      BoundaryNeverBuilds for Boundary configurations no decoder output carries the head's stride
+     NoRoundingTies      round() in Model.__init__ never sees an exact half
    Counter-model: AsCodedDesignOK must be violated (run through MC_ArchClasses, which also lists
    the classes).  MC_ArchExport writes InGrid for the driver, MC_ArchCover checks what was fed. *)
 EXTENDS Arch
@@ -56,6 +57,15 @@ AsCodedClassified == (built /\ Valid(cfg)) =>
 BoundaryNeverBuilds == (built /\ Boundary(cfg)) =>
     /\ AsCodedOutcome(cfg) # "ok"
     /\ \A R \in {AsCoded, Repaired} : \E k \in 1..Len(cfg.hs) : ~InSeq(Run(cfg, R, cfg.ms, cfg.ms).strides, cfg.hs[k])
+
+\* Python's round() is half-to-even, RoundDiv is half-up: they agree because the quotient in
+\* Model.__init__ is never exactly k + 1/2
+NoRoundingTies == (built /\ InGrid(cfg)) =>
+    LET bb == Backbone(cfg, AsCoded, cfg.ms, cfg.ms)
+        U == Len(bb.blocks)
+        a == bb.maxch * Pow(cfg.fr[2], U)
+        b == Pow(cfg.fr[1], U)
+    IN (2 * a) % (2 * b) # b
 
 ASSUME PrintT(<<"GRID", Cardinality(Grid), Cardinality(ValidSet), Cardinality(BoundarySet)>>)
 =============================================================================
